@@ -384,10 +384,13 @@ class RealBackend(object):
                 b = SimDebugBatch(self, k, 0)
                 _batching._debug_batch_state.batches[b.name] = b
                 self.current[k] = b
-            elif k < len(carried) and carried[k] is not None and not carried[k].is_flushed():
+            elif k < len(carried) and carried[k] is not None and not carried[k].is_flushed() and isinstance(carried[k], SimBatch):
                 b = carried[k]
                 b.B = self
+                b.prio = self.batch_prio(k, b.gen)
                 for it in b.items:
+                    if not it.tok.startswith("s:"):
+                        it.tok = "s:" + it.tok
                     self.items[it.tok] = it
                 self.current[k] = b
             else:
@@ -414,7 +417,7 @@ class RealBackend(object):
         for b in self.current:
             if b is not None and not b.is_flushed():
                 for it in b.items:
-                    out.append([b.kind, it.tok, it.key])
+                    out.append([b.kind, it.tok if it.tok.startswith("s:") else "s:" + it.tok, it.key])
         return out
 
     def canon_trace(self):
@@ -538,6 +541,9 @@ class RealBackend(object):
         child.task = task
         self.insts[child.token] = child
         self.ev("create", child.token)
+        self.ntask_reg = getattr(self, "ntask_reg", 0) + 1
+        if ("#%d" % self.ntask_reg) in self.cb_faults:
+            self.cb_faults[child.token] = True
         if task is not None:
             task.on_computed.subscribe(lambda t, c=child: self._task_done(c, t))
 
@@ -798,6 +804,9 @@ class RealBackend(object):
         cid = "%s.c%d" % (inst.token, inst.nc)
         inst.nc += 1
         self.nctx += 1
+        f = self.ctx_faults.get("#%d" % self.nctx)
+        if f is not None:
+            self.ctx_faults[cid] = f
         if k == "ctx":
             return SimContext(self, cid, inst)
         if k == "na":
